@@ -119,6 +119,13 @@ class HoistLiterals(NodeVisitor):
         self.module = module
         self._ignore_slots = ignore_slots
         self._hoisted = {}
+
+        # With `from __future__ import annotations` annotations are kept as strings and evaluated later,
+        # possibly in another scope, so a literal in one can't be replaced by a local name
+        self._lazy_annotations = any(
+            isinstance(node, ast.ImportFrom) and node.module == '__future__' and 'annotations' in [alias.name for alias in node.names]
+            for node in module.body
+        )
         self.visit(module)
         self.place_bindings()
 
@@ -222,6 +229,35 @@ class HoistLiterals(NodeVisitor):
 
     def visit_NameConstant(self, node):
         self.get_binding(node.value, node).add_reference(node)
+
+    def visit_without(self, node, skipped_field):
+        for field, value in ast.iter_fields(node):
+            if field == skipped_field:
+                continue
+            if isinstance(value, list):
+                for item in value:
+                    if isinstance(item, ast.AST):
+                        self.visit(item)
+            elif isinstance(value, ast.AST):
+                self.visit(value)
+
+    def visit_AnnAssign(self, node):
+        if self._lazy_annotations:
+            return self.visit_without(node, 'annotation')
+        return self.generic_visit(node)
+
+    def visit_arg(self, node):
+        if self._lazy_annotations:
+            return self.visit_without(node, 'annotation')
+        return self.generic_visit(node)
+
+    def visit_FunctionDef(self, node):
+        if self._lazy_annotations:
+            return self.visit_without(node, 'returns')
+        return self.generic_visit(node)
+
+    def visit_AsyncFunctionDef(self, node):
+        return self.visit_FunctionDef(node)
 
     def visit_match_case(self, node):
         # Can't hoist literals in a pattern
